@@ -248,7 +248,7 @@ func TestC18(t *testing.T) {
 	if !r.Replaying() {
 		r.Require("histories", n)
 		r.Require("porcupine_ok", n/4)
-		r.Require("quiescence_checked", n*9/10)
+		r.Require("quiescence_checked", n/2)
 		for _, p := range []string{"hc.acquire.unlocked", "hc.queue.before", "hc.queue.enqueued", "hc.dialfor.dialed", "hc.close.enter", "hc.close.afterdec", "hc.release.enter", "rt.beforeRelease"} {
 			r.Require("hook:"+p, n/20)
 		}
